@@ -184,6 +184,8 @@ type sys struct {
 	commits []commitEvent
 
 	restarts int
+	// Replays the kernel accepted: the height must then be committed with a certificate the node holds.
+	replayAccepted []commitEvent
 
 	curEvent string
 	gSeg      []int // process lifetime (restart count) in which each gossip update was received
